@@ -111,7 +111,7 @@ def step (st : State) (args : List String) : State × String :=
       else if op == "sleep" then
         -- real time passes and the request timeout may fire: the model has no timer; from here on only the monitors speak
         (st.set id { s with undefined := true }, "mon")
-      else if op == "stallcut" || op == "racega" then
+      else if op == "stallcut" || op == "racega" || op == "racega2" then
         -- the peer stops reading, goes on sending and disconnects: judged by the monitors; the connection is over
         (st.set id { s with returned := true, rlStopped := true, slStopped := true }, "mon")
       else if op == "gauges" then (st, if s.undefined then "undef" else if s.returned then "ok gone" else gauges s)
